@@ -28,7 +28,7 @@ def acc_matches(body, accfield=None):
     return out
 
 
-def check_acc_dispatch(ctx, rule, fn, m, inst, overwrite_ok=None, allow_unimplemented=()):
+def check_acc_dispatch(ctx, rule, fn, m, inst, overwrite_ok=None, allow_unimplemented=(), mean_div_ok=None):
     """Every variant arm combines tensors with exactly the primitive set of its kind.
     overwrite_ok(arm_body) -> bool decides the Overwrite arm (an assignment / clone)."""
     c = ctx.crate
@@ -65,7 +65,11 @@ def check_acc_dispatch(ctx, rule, fn, m, inst, overwrite_ok=None, allow_unimplem
             ok_all = False
             continue
         if used in ACC_MAP[v]:
-            if v == "Overwrite" and overwrite_ok is not None and not overwrite_ok(a["body"]):
+            if v == "Mean" and (T + "div_scalar_inplace") in used and not (mean_div_ok or _mean_of_literal_count)(a["body"]):
+                ctx.bad(rule, sub, "mean-divisor-is-not-the-operand-count", where,
+                        "the Mean arm averages by explicit division, `%s`; the divisor must be the number of tensors combined" % short(pretty(a["body"]), 160))
+                ok_all = False
+            elif v == "Overwrite" and overwrite_ok is not None and not overwrite_ok(a["body"]):
                 ctx.bad(rule, sub, "overwrite-arm-does-not-assign", where, short(pretty(a["body"]), 200))
                 ok_all = False
             else:
@@ -77,6 +81,21 @@ def check_acc_dispatch(ctx, rule, fn, m, inst, overwrite_ok=None, allow_unimplem
                        sorted(x.split("::")[-1] for x in used), short(pretty(a["body"]), 160)))
             ok_all = False
     return ok_all
+
+
+def _mean_of_literal_count(body):
+    """`t.add_inplace(a); ..; t.div_scalar_inplace(<n+1>)` with n straight-line additions and a literal divisor n+1"""
+    if any(x.get("k") in ("for", "loop", "closure") for x in walk(body)):
+        return False
+    adds = [x for x in walk(body) if x.get("k") == "mcall" and x["callee"] == T + "add_inplace"]
+    divs = [x for x in walk(body) if x.get("k") == "mcall" and x["callee"] == T + "div_scalar_inplace"]
+    if len(divs) != 1:
+        return False
+    v = e4.lit_value(divs[0]["args"][0])
+    try:
+        return v is not None and float(v.replace("_", "").rstrip("f32").rstrip("_")) == len(adds) + 1
+    except ValueError:
+        return False
 
 
 def mentions_local(n, hid):
